@@ -196,6 +196,24 @@ var ArgFuncBad = bigslice.Func(func(nshard int, f func(), c chan int, u unexport
 	return argRows(nshard, fmt.Sprintf("f=%v c=%v u=%v i=%v", f != nil, c != nil, u, i))
 })
 
+// ArgFuncPass returns its slice argument as is; its other parameters may hold
+// values that cannot be transported.
+var ArgFuncPass = bigslice.Func(func(s bigslice.Slice, i interface{}) bigslice.Slice {
+	return s
+})
+
+// PassArgs returns arguments for ArgFuncPass ("" = all encodable).
+func PassArgs(s bigslice.Slice, bad string) []interface{} {
+	var i interface{}
+	switch bad {
+	case "unexported":
+		i = unexportedOnly{x: 3}
+	case "unregistered":
+		i = Unregistered{X: 5}
+	}
+	return []interface{}{s, i}
+}
+
 // BadArgs returns arguments for ArgFuncBad with one unencodable value.
 func BadArgs(nshard int, bad string) []interface{} {
 	var (
